@@ -92,35 +92,36 @@ structure S where
   lookup : List Nat                 -- new index ↦ original index (identity before any sample-at)
   index : Nat
   cache : List (Int × Sx)           -- timestamp ↦ cached value
+  /-- the body's value: a function of the current index table and the current (new) index — it may look at neighbouring
+      samples (`e@k`), which is why resampling has to drop the cache; a `defsig` of the same name replaces it -/
+  body : List Nat → Nat → Sx
 
 inductive Op where
   | jump (i : Nat)                  -- any navigation: step, @, scans … (lands on a valid index or stays)
   | read                            -- read the virtual signal
   | sample (L : List Nat)           -- sample-at (indices into the original trace); drops the cached values
-
-/- the body's value: a function of the current index table and the current (new) index — it may look at
-   neighbouring samples (`e@k`), which is why resampling has to drop the cache -/
-variable (f : List Nat → Nat → Sx)
+  | redefine (g : List Nat → Nat → Sx)   -- (defsig v body') for the same name: a new signal with an empty cache
 
 def tsAt (s : S) (i : Nat) : Option Int := (s.lookup[i]?).bind (fun o => s.origTs[o]?)
 
 def step (s : S) : Op → S × Option Sx
   | .jump i => (if i < s.lookup.length then { s with index := i } else s, Option.none)
   | .sample L => ({ s with lookup := dedup (L.filter (· < s.origTs.length)), index := 0, cache := [] }, Option.none)
+  | .redefine g => ({ s with body := g, cache := [] }, Option.none)
   | .read =>
     match tsAt s s.index with
     | some ts =>
       match s.cache.lookup ts with
       | some v => (s, some v)
-      | Option.none => let v := f s.lookup s.index; ({ s with cache := (ts, v) :: s.cache }, some v)
+      | Option.none => let v := s.body s.lookup s.index; ({ s with cache := (ts, v) :: s.cache }, some v)
     | Option.none => (s, Option.none)
 
-/-- timestamps identify samples, the index table has no repeats, and every cached pair is the body's value at the
-(new) index that carries this timestamp -/
+/-- timestamps identify samples, the index table has no repeats, and every cached pair is the (current) body's value at
+the (new) index that carries this timestamp -/
 def Inv (s : S) : Prop :=
   (∀ (i j : Nat) (ti tj : Int), s.origTs[i]? = some ti → s.origTs[j]? = some tj → ti = tj → i = j) ∧
   s.lookup.Nodup ∧
-  (∀ (ts : Int) (v : Sx), s.cache.lookup ts = some v → ∃ i : Nat, tsAt s i = some ts ∧ v = f s.lookup i)
+  (∀ (ts : Int) (v : Sx), s.cache.lookup ts = some v → ∃ i : Nat, tsAt s i = some ts ∧ v = s.body s.lookup i)
 
 theorem lookup_cons {ts ts' : Int} {v v' : Sx} {c : List (Int × Sx)}
     (h : ((ts', v') :: c).lookup ts = some v) : (ts = ts' ∧ v = v') ∨ c.lookup ts = some v := by
@@ -129,11 +130,12 @@ theorem lookup_cons {ts ts' : Int} {v v' : Sx} {c : List (Int × Sx)}
   · have : (ts == ts') = false := by simpa using e
     simp [List.lookup, this] at h; exact Or.inr h
 
-theorem step_inv (s : S) (op : Op) (h : Inv f s) : Inv f (step f s op).1 := by
+theorem step_inv (s : S) (op : Op) (h : Inv s) : Inv (step s op).1 := by
   obtain ⟨hinj, hnd, hc⟩ := h
   cases op with
   | jump i => simp only [step]; split <;> exact ⟨hinj, hnd, hc⟩
   | sample L => exact ⟨hinj, C19.dedup_nodup _, fun ts v h => by simp [step, List.lookup] at h⟩
+  | redefine g => exact ⟨hinj, hnd, fun ts v h => by simp [step, List.lookup] at h⟩
   | read =>
     simp only [step]
     split
@@ -148,7 +150,7 @@ theorem step_inv (s : S) (op : Op) (h : Inv f s) : Inv f (step f s op).1 := by
     · exact ⟨hinj, hnd, hc⟩
 
 /-- whatever a read returns is the body's value at the current index -/
-theorem read_correct (s : S) (h : Inv f s) (v : Sx) (hr : (step f s .read).2 = some v) : v = f s.lookup s.index := by
+theorem read_correct (s : S) (h : Inv s) (v : Sx) (hr : (step s .read).2 = some v) : v = s.body s.lookup s.index := by
   obtain ⟨hinj, hnd, hc⟩ := h
   simp only [step] at hr
   split at hr
@@ -176,19 +178,26 @@ theorem read_correct (s : S) (h : Inv f s) (v : Sx) (hr : (step f s .read).2 = s
 
 def run (s : S) : List Op → S
   | [] => s
-  | op :: r => run (step f s op).1 r
+  | op :: r => run (step s op).1 r
 
-theorem run_inv (ops : List Op) : ∀ s, Inv f s → Inv f (run f s ops) := by
+theorem run_inv (ops : List Op) : ∀ s, Inv s → Inv (run s ops) := by
   induction ops with
   | nil => intro s h; exact h
-  | cons op r ih => intro s h; exact ih _ (step_inv f s op h)
+  | cons op r ih => intro s h; exact ih _ (step_inv s op h)
 
-/-- **irrespective of the order in which indices are visited and of any earlier reads, also after resampling**:
-after every history of jumps, reads and resamplings a read returns the body's value at the current index -/
-theorem read_after_any_history (s : S) (ops : List Op) (h : Inv f s) (v : Sx)
-    (hr : (step f (run f s ops) .read).2 = some v) :
-    v = f (run f s ops).lookup (run f s ops).index :=
-  read_correct f _ (run_inv f ops s h) v hr
+/-- **irrespective of the order in which indices are visited and of any earlier reads, also after resampling and after
+the signal has been defined anew**: after every history of jumps, reads, resamplings and redefinitions a read returns the
+value of the body that is current then, at the current index -/
+theorem read_after_any_history (s : S) (ops : List Op) (h : Inv s) (v : Sx)
+    (hr : (step (run s ops) .read).2 = some v) :
+    v = (run s ops).body (run s ops).lookup (run s ops).index :=
+  read_correct _ (run_inv ops s h) v hr
+
+/-- a redefinition is what decides from then on: directly after `(defsig v body')` a read yields `body'` -/
+theorem read_after_redefine (s : S) (g : List Nat → Nat → Sx) (h : Inv s) (v : Sx)
+    (hr : (step (step s (.redefine g)).1 .read).2 = some v) : v = g s.lookup s.index := by
+  have := read_correct _ (step_inv s (.redefine g) h) v hr
+  simpa [step] using this
 
 /-- strictly increasing timestamps identify samples -/
 theorem increasing_identifies (ts : List Int) (h : ts.Pairwise (· < ·)) :
@@ -200,7 +209,8 @@ theorem increasing_identifies (ts : List Int) (h : ts.Pairwise (· < ·)) :
   exact (List.getElem?_inj hil hnd).1 (hi.trans hj.symm)
 
 /-- non-vacuity: a four-sample trace with an empty cache satisfies the invariant -/
-example : Inv (fun l i => .int ((l[i]?.getD 0) + 1)) { origTs := [0, 10, 20, 30], lookup := [0, 1, 2, 3], index := 0, cache := [] } :=
+example : Inv { origTs := [0, 10, 20, 30], lookup := [0, 1, 2, 3], index := 0, cache := [],
+                body := fun l i => .int ((l[i]?.getD 0) + 1) } :=
   ⟨increasing_identifies [0, 10, 20, 30] (by decide), by decide, fun ts v h => by simp [List.lookup] at h⟩
 
 end Abs
